@@ -290,6 +290,19 @@ NextCommit ==
   \/ NewOidQ
   \/ CloseReopenQ
 EarlyStore(c, o, s, d) == Len(hist) < 3 /\ Store(c, o, s, d)
+\* abort-heavy: like NextCommit, plus an abort after the vote and after some stores
+AbortVoted(c) == txn.owner = c /\ txn.phase = "voted" /\ Abort(c)
+AbortStaged(c) == txn.owner = c /\ txn.phase = "begun" /\ Len(txn.staged) >= 2 /\ Abort(c)
+NextAbort ==
+  \/ \E c \in Client, m \in Metas, clk \in 1..MaxClock : Begin(c, m, clk)
+  \/ \E c \in Client, o \in Oids, s \in SerialRange, d \in Datums : Store(c, o, s, d)
+  \/ \E c \in Client, t \in SerialRange : Undo(c, t)
+  \/ \E c \in Client : Vote(c)
+  \/ \E c \in Client : Finish(c)
+  \/ \E c \in Client : AbortFailed(c)
+  \/ \E c \in Client : AbortVoted(c)
+  \/ \E c \in Client : AbortStaged(c)
+  \/ CloseReopenQ
 \* resolution heavy: stores with stale serials and undo of changed objects
 StaleStore(c, o, s, d) == CurTid(hist, o) # 0 /\ Store(c, o, s, d)
 NextResolve ==
